@@ -192,6 +192,9 @@ func srvCliStr(isClient bool) string {
 type Conn struct {
 	lock           sync.RWMutex                       // Internal lock (must not be public)
 	nextConn       netctx.PacketConn                  // Embedded Conn, typically a udpconn we read/write from
+	clientSessionKeyOnce sync.Once
+	clientSessionKey     []byte
+
 	fragmentBuffer *dtlsfragmentbuffer.FragmentBuffer // out-of-order and missing fragment handling
 	handshakeCache *dtlsflight.Cache                  // caching of handshake messages for verifyData generation
 	pendingACKs    []protocol.RecordNumber
@@ -3046,10 +3049,17 @@ func (c *Conn) RemoteAddr() net.Addr {
 func (c *Conn) sessionKey() []byte {
 	common := dtlsstate.CommonState(c.state)
 	if common.IsClient {
-		// As ServerName can be like 0.example.com, it's better to add
-		// delimiter character which is not allowed to be in
-		// neither address or domain name.
-		return []byte(c.rAddr.String() + "_" + c.handshakeConfig.ServerName)
+		// The key names the address the handshake was started with: the peer
+		// address can change later (connection IDs), and the session must still
+		// be found under the name it was stored with.
+		c.clientSessionKeyOnce.Do(func() {
+			// As ServerName can be like 0.example.com, it's better to add
+			// delimiter character which is not allowed to be in
+			// neither address or domain name.
+			c.clientSessionKey = []byte(c.rAddr.String() + "_" + c.handshakeConfig.ServerName)
+		})
+
+		return c.clientSessionKey
 	}
 
 	return common.SessionID
